@@ -113,6 +113,9 @@ double g_maxPot = 0, g_maxF = 0;
 // convergence with the order (binaries built with -DORDERLOW=<lower order>): per eligible case the ratio error(high)/error(low)
 struct Conv { double ratioPot, ratioF; FmmCase c; };
 std::vector<Conv> g_conv;
+struct ChainRatio { double rp, rf; FmmCase c; };
+std::vector<ChainRatio> g_chain[9];
+double g_chainMaxP[9] = {0,0,0,0,0,0,0,0,0}, g_chainMaxF[9] = {0,0,0,0,0,0,0,0,0};
 
 } // namespace
 
@@ -239,6 +242,38 @@ std::string propNum(const FmmCase& c0, const std::string& prop){
             g_conv.push_back(cv);
             st.cls("convergence-eligible-cases");
         }
+    }
+#endif
+#ifdef ORDERCHAIN
+    {
+        // every order of the quantified range on the same case (uniform kernel: 3..8, each order has its own node and operator tables):
+        // results finite for every order, and the error does not grow from one order to the next (hard per-case factor, median per pair
+        // of adjacent orders over the campaign)
+        double ep[9] = {0,0,0,0,0,0,0,0,0}, ef[9] = {0,0,0,0,0,0,0,0,0};
+        auto runOrder = [&](auto tag) -> std::string {
+            constexpr int O = decltype(tag)::value;
+            Result r; std::string e2 = Num<O>::runFmm(c, config, qs, qt, bs, c.oneGroupPerParent != 0, extra, r); if(!e2.empty()) return e2;
+            errorsOf(r, O, ep[O], ef[O]);
+            return nonFinite;
+        };
+        e = runOrder(std::integral_constant<int, 3>{}); if(!e.empty()) return e;
+        e = runOrder(std::integral_constant<int, 4>{}); if(!e.empty()) return e;
+        e = runOrder(std::integral_constant<int, 5>{}); if(!e.empty()) return e;
+        e = runOrder(std::integral_constant<int, 6>{}); if(!e.empty()) return e;
+        e = runOrder(std::integral_constant<int, 7>{}); if(!e.empty()) return e;
+        ep[8] = maxPot; ef[8] = maxF;
+        const double floorErr = RealCode ? 1e-4 : 1e-9;
+        for(int k = 3 ; k < 8 ; ++k){
+            if(ep[k] > floorErr && ef[k] > floorErr){
+                const double rp = ep[k + 1] / ep[k], rf = ef[k + 1] / ef[k];
+                g_chain[k].push_back(ChainRatio{rp, rf, c0});
+                g_chainMaxP[k] = std::max(g_chainMaxP[k], rp); g_chainMaxF[k] = std::max(g_chainMaxF[k], rf);
+                if(!g_calibrate && (rp > nb::chainHard() || rf > nb::chainHard())){
+                    std::ostringstream os; os << KernelName << ": the error grows with the order: order " << k << " potential/force error " << ep[k] << "/" << ef[k] << ", order " << k + 1 << " " << ep[k + 1] << "/" << ef[k + 1];
+                    return os.str(); }
+            }
+        }
+        st.cls("order-chain-cases");
     }
 #endif
     g_maxPot = std::max(g_maxPot, maxPot); g_maxF = std::max(g_maxF, maxF);
@@ -377,6 +412,27 @@ int main(int argc, char** argv){
         std::ostringstream os; os << KernelName << ": over " << g_conv.size() << " cases the median ratio error(order " << ORDERV << ")/error(order " << ORDERLOW << ") is " << medP << " (potential) / " << medF
                                   << " (force), bound " << nb::convMedian(KERNEL) << ": the error does not shrink as the order grows";
         return os.str();
+    };
+#endif
+#ifdef ORDERCHAIN
+    fin = [&](std::vector<FmmCase>& worst) -> std::string {
+        for(int k = 3 ; k < 8 ; ++k){
+            auto& v = g_chain[k];
+            if(v.size() < 15) continue;
+            std::vector<double> rp, rf; for(const auto& x : v){ rp.push_back(x.rp); rf.push_back(x.rf); }
+            std::sort(rp.begin(), rp.end()); std::sort(rf.begin(), rf.end());
+            const double medP = rp[rp.size() / 2], medF = rf[rf.size() / 2];
+            hc::stats().cls("chain-median-ratio-potential-x1e6:order" + std::to_string(k) + "->" + std::to_string(k + 1), long(medP * 1e6));
+            hc::stats().cls("chain-median-ratio-force-x1e6:order" + std::to_string(k) + "->" + std::to_string(k + 1), long(medF * 1e6));
+            if(g_calibrate) std::cout << "CHAIN order " << k << "->" << k + 1 << " n=" << v.size() << " medianPot=" << medP << " medianForce=" << medF << " maxPot=" << g_chainMaxP[k] << " maxForce=" << g_chainMaxF[k] << std::endl;
+            if(g_calibrate || (medP <= nb::chainMedian() && medF <= nb::chainMedian())) continue;
+            std::sort(v.begin(), v.end(), [](const ChainRatio& x, const ChainRatio& y){ return x.rp > y.rp; });
+            for(size_t i = 0 ; i < v.size() && i < 40 ; ++i) worst.push_back(v[i].c);
+            std::ostringstream os; os << KernelName << ": over " << v.size() << " cases the median ratio error(order " << k + 1 << ")/error(order " << k << ") is " << medP << " (potential) / " << medF
+                                      << " (force), bound " << nb::chainMedian() << ": the error does not decrease as the order grows";
+            return os.str();
+        }
+        return "";
     };
 #endif
     const int rc = hc::runMain(a, g, [&](const FmmCase& c){ return propNum(c, prop); }, fin);
